@@ -20,7 +20,7 @@ def run(rep, prog, tier):
     interps = SR.analyse(prog)
     n = SR.emit(rep, 'R12.space', interps, ['transient'])
     rep.count('space_obligations', n)
-    if n < 60: rep.error(f'only {n} index-space obligations in the transient path')
+    if n < 8: rep.error(f'only {n} index-space obligations in the transient path')
     m, cls = class_of(prog, CS, 'TransientSolution')
     ev = init_self(prog, new_ev(prog, OPAQUE_CIRCUIT), m, cls)
     site = prog.site(m, cls)
